@@ -1,6 +1,8 @@
 use crate::ctx::Shard;
 
 pub mod c04;
+pub mod c07;
+pub mod c08;
 pub mod c10;
 pub mod c11;
 pub mod c12;
@@ -8,6 +10,8 @@ pub mod c12;
 pub fn dispatch(engine: &str, sh: &mut Shard) -> bool {
     match engine {
         "c04" => c04::run(sh),
+        "c07" => c07::run(sh),
+        "c08" => c08::run(sh),
         "c10" => c10::run(sh),
         "c11" => c11::run(sh),
         "c12" => c12::run(sh),
